@@ -139,10 +139,16 @@ func afApply(p *packet.Packet, op Val) (err error, panicked bool, bad bool) {
 		err = af.SetSpliceCountdown(byte(arg.U()))
 	case 11:
 		d := append([]byte{}, arg.B...)
+		if len(d) == 0 && nilArgs {
+			d = nil // zero-length data as a nil slice on every second run of the history (see af.hist)
+		}
 		err = af.SetTransportPrivateData(d)
 		argWritten = argWritten || !bytes.Equal(d, arg.B)
 	case 12:
 		d := append([]byte{}, arg.B...)
+		if len(d) == 0 && nilArgs {
+			d = nil
+		}
 		err = af.SetAdaptationFieldExtension(d)
 		argWritten = argWritten || !bytes.Equal(d, arg.B)
 	case 13:
@@ -162,7 +168,20 @@ func afApply(p *packet.Packet, op Val) (err error, panicked bool, bad bool) {
 }
 
 func init() {
+	var afHistOnce func(a []Val) Val
 	register("af.hist", func(a []Val) Val {
+		// the history is run twice: with zero-length data arguments as empty non-nil slices, and as nil slices
+		nilArgs = false
+		r1 := afHistOnce(a)
+		nilArgs = true
+		r2 := afHistOnce(a)
+		nilArgs = false
+		if !valEq(r1, r2) {
+			noteUnstable("af.hist: nil and empty non-nil data arguments behave differently")
+		}
+		return r1
+	})
+	afHistOnce = func(a []Val) Val {
 		if len(a) != 2 || a[0].K != 1 || a[1].K != 2 || len(a[0].B) != 188 {
 			return VBad()
 		}
@@ -190,5 +209,7 @@ func init() {
 			out = append(out, VL(st, VB(p[:]), afGetters(&p)))
 		}
 		return VL(out...)
-	})
+	}
 }
+
+var nilArgs bool
